@@ -32,7 +32,7 @@ tvars == <<tid, l>>
 
 CfOf(t) == LET c == Traces[t].cf IN
   [nw |-> c.nw, groups |-> c.groups, n |-> c.n, ops |-> {c.ops[i] : i \in DOMAIN c.ops},
-   reward |-> c.reward, evo |-> c.evo, warm |-> c.warm]
+   reward |-> c.reward, evo |-> c.evo, warm |-> c.warm, named |-> c.named]
 
 TInit == /\ tid \in 1..NT /\ l = 1
          /\ cf = CfOf(tid)
@@ -54,8 +54,8 @@ RelSec(w) == CASE pc[w] = "c_rel" -> 1 [] pc[w] = "m_rel" -> 3 [] OTHER -> 2
 RegSec(w) == IF pc[w] \in {"goc_acq", "goc_rel"} THEN 1 ELSE 2
 AlgSec(w) == IF pc[w] = "p_acq" THEN 1 ELSE 2
 
-TGocTest == Is("goc_test") /\ GocTest(W) /\ E.found = B(registry # NULL)
-            /\ (registry # NULL => E.sid = registry)
+TGocTest == Is("goc_test") /\ GocTest(W) /\ E.found = B(cf.named /\ registry # NULL)
+            /\ (cf.named /\ registry # NULL => E.sid = registry)
 TGocStore == Is("goc_store") /\ GocStore(W) /\ E.sid = W
 TWantReg == Is("want_reg") /\ pc[W] \in {"goc_acq", "setup_acq"} /\ E.sec = RegSec(W) /\ Stut
 TAcqReg == Is("acquire_reg") /\ AcqReg(W) /\ E.sec = RegSec(W)
@@ -99,7 +99,7 @@ TFinish == Is("finish") /\ pc[W] = "stop" /\ E.crash = 0 /\ Stut
 \* the scheduler found every live worker blocked: only legal where the specification is stuck as well
 TDeadlock == Is("deadlock") /\ ~ENABLED Next /\ ~Quiescent /\ Stut
 TFinal ==
-  /\ Is("final") /\ Quiescent /\ registry # NULL
+  /\ Is("final") /\ Quiescent /\ cf.named /\ registry # NULL
   /\ LET R == registry  P == 1..Len(trials[registry]) IN
      /\ E.ids = [i \in P |-> trials[R][i].id]
      /\ E.status = [i \in P |-> B(trials[R][i].status = "C")]
@@ -109,12 +109,18 @@ TFinal ==
      /\ E.nprop = nProp /\ E.nfb = nFb /\ (cf.evo => E.size = pop)
   /\ Stut
 
+\* name=None: there is no handle on the private studies; only the shared algorithm is compared
+TFinalUnnamed ==
+  /\ Is("final_unnamed") /\ Quiescent /\ ~cf.named
+  /\ E.nprop = nProp /\ E.nfb = nFb /\ (cf.evo => E.size = pop)
+  /\ Stut
+
 TNext ==
   /\ \/ TGocTest \/ TGocStore \/ TWantReg \/ TAcqReg \/ TRelReg \/ TSetupTest \/ TSetupBegin \/ TSetupDo
      \/ TNextActive \/ TNextLookup \/ TNextStatus \/ TWantStudy \/ TAcqStudy \/ TRelStudy
      \/ TCheckMax \/ TWantAlg \/ TAcqAlg \/ TPropose \/ TAlloc \/ TAppend
      \/ TReadReward \/ TShortAdd \/ TSetFitness \/ TChoose \/ TAdd \/ TDoneTest \/ TDoneSet \/ TEvoPop \/ TRelAlg \/ TAlgFeedback \/ TFed
-     \/ TCompleteCounts \/ TBestRead \/ TCompleteDone \/ TEndLoop \/ TFinish \/ TDeadlock \/ TFinal
+     \/ TCompleteCounts \/ TBestRead \/ TCompleteDone \/ TEndLoop \/ TFinish \/ TDeadlock \/ TFinal \/ TFinalUnnamed
   /\ Adv
 TSpec == TInit /\ [][TNext]_<<vars, tvars>>
 
